@@ -535,6 +535,34 @@ func c06(c *core.Ctx) {
 				}
 			})
 			key := fmt.Sprintf("pool|%s#%d", fname(fn), i)
+			// the buffer's memory goes back to the pool with it: nothing derived from the buffer (Bytes(), a
+			// slice of it, the buffer itself) may leave the function through a return value
+			escapes := false
+			var escAt ssa.Instruction
+			ssax.Instrs(fn, false, func(_ *ssa.Function, in ssa.Instruction) {
+				ret, ok := in.(*ssa.Return)
+				if !ok {
+					return
+				}
+				for _, rv := range ret.Results {
+					switch rv.Type().Underlying().(type) {
+					case *types.Slice, *types.Pointer:
+					default:
+						continue
+					}
+					if ssax.AnyIn(ssax.BackwardOpt(rv, func(call *ssa.Call) bool {
+						sc := call.Call.StaticCallee()
+						return sc != nil && sc.Pkg != nil && sc.Pkg.Pkg.Path() == "bytes"
+					}), func(v ssa.Value) bool { return v == buf }) {
+						escapes, escAt = true, ret
+					}
+				}
+			})
+			if escapes {
+				c.Violation("C06.R6", key+"|no-escape", ipos(c, escAt), "memory of a pooled scratch buffer (its Bytes() or the buffer itself) is returned to the caller while the buffer goes back to the pool: a concurrent encoder overwrites the bytes before the caller has written them")
+			} else {
+				c.OK("C06.R6", key+"|no-escape", ipos(c, g.Instr), "nothing of the pooled buffer is returned")
+			}
 			switch {
 			case len(deferred) == 1 && len(direct) == 0:
 				c.OK("C06.R6", key, ipos(c, g.Instr), "returned once (deferred)")
